@@ -207,6 +207,12 @@ def _bin(case):
         o = _U["ua"](np.zeros(len(case["x0"])), "K")
         uf(a, b, out=o)
         return o
+    # out= aliasing one of the operands: the operand itself, or a view sharing its memory
+    if form in ("out0", "out1", "outv0", "outv1"):
+        tgt = a if form.endswith("0") else b
+        o = tgt[:] if form.startswith("outv") else tgt
+        uf(a, b, out=o)
+        return o
     raise ValueError(form)
 
 
@@ -223,12 +229,37 @@ def _partner(case, a):
         return a.copy()
     if part == "two":
         return 2.0
+    if part == "bare":
+        return _U["np"].array([2.0 + i for i in range(n)])
+    if part == "list":
+        return [2.0 + i for i in range(n)]
     if case["shape"] == "sc":
         return _U["uq"](2.0, {"K": "K", "m": "m", "nd": "dimensionless"}[part])
     return _U["ua"]([2.0 + i for i in range(n)], {"K": "K", "m": "m", "nd": "dimensionless"}[part])
 
 
 _POW = {"2": 2, "3": 3, "half": 0.5, "m1": -1}
+# product-like operations on two 1-d arrays of three elements
+_PRODUCTS = {
+    "dot": lambda np: np.dot,
+    "matmul": lambda np: np.matmul,
+    "at": lambda np: operator.matmul,
+    "vecdot": lambda np: np.vecdot,
+    "mouter": lambda np: np.multiply.outer,
+    "inner": lambda np: np.inner,
+    "outer": lambda np: np.outer,
+    "vdot": lambda np: np.vdot,
+    "tensordot": lambda np: (lambda x, y: np.tensordot(x, y, axes=1)),
+    "einsum": lambda np: (lambda x, y: np.einsum("i,i->", x, y)),
+    "kron": lambda np: np.kron,
+    "cross": lambda np: np.cross,
+    "convolve": lambda np: np.convolve,
+    "correlate": lambda np: np.correlate,
+    "linalg_outer": lambda np: np.linalg.outer,
+    "linalg_cross": lambda np: np.linalg.cross,
+    "linalg_vecdot": lambda np: np.linalg.vecdot,
+    "linalg_matmul": lambda np: np.linalg.matmul,
+}
 
 
 def _ref(case):
@@ -258,10 +289,20 @@ def _ref(case):
     if op == "divmod":
         b = _partner(case, a)
         return divmod(a, b) if form == "function" else divmod(b, a)
-    if op in ("dot", "matmul"):
+    if op == "true_divide":
         b = _partner(case, a)
-        f = getattr(np, op)
+        return np.true_divide(a, b) if form == "function" else np.true_divide(b, a)
+    if op == "matmul" and form == "out":
+        b = _partner(case, a)
+        o = _U["ua"](np.zeros((1, 1)), "K")
+        np.matmul(a.reshape(1, -1), np.asarray(b).reshape(-1, 1) if not hasattr(b, "units") else b.reshape(-1, 1), out=o)
+        return o
+    if op in _PRODUCTS:
+        b = _partner(case, a)
+        f = _PRODUCTS[op](np)
         return f(a, b) if form == "function" else f(b, a)
+    if op in ("cumprod", "nancumprod", "cumulative_prod", "nanprod"):
+        return getattr(np, op)(a)
     if op in ("square", "sqrt", "cbrt", "reciprocal"):
         uf = getattr(np, op)
         if form == "ufunc":
